@@ -242,6 +242,36 @@ Check C07_atomic_add_crash : forall (is_lower : N -> bool) (lower : N -> list N)
   dict_equiv (dict_at is_lower lower p s') (append_word is_lower lower (dict_at is_lower lower p s) w).
 Print Assumptions C07_atomic_add_crash.
 
+(* the per-document linter cache: after an add of a non-empty word with a new id the hashed stream of the
+   changed child differs (it is longer) for every pair of iteration orders, so update_document builds a new
+   linter.  Partial: the empty word and a same-id replacement are not covered; the second can collide
+   (C07_merge_rebuild_same_id_refuted) *)
+Theorem C07_merge_rebuild_partial : forall (is_lower : N -> bool) (lower : N -> list N) (o1 o2 : list word -> list word),
+  (forall l, Permutation (o1 l) l) -> (forall l, Permutation (o2 l) l) ->
+  forall (d : dict) (w : word),
+  lookup (word_id is_lower lower w) d = None -> w <> [] ->
+  child_stream o1 d <> child_stream o2 (append_word is_lower lower d w).
+Proof. exact merge_rebuild_partial. Qed.
+Check C07_merge_rebuild_partial : forall (is_lower : N -> bool) (lower : N -> list N) (o1 o2 : list word -> list word),
+  (forall l, Permutation (o1 l) l) -> (forall l, Permutation (o2 l) l) ->
+  forall (d : dict) (w : word),
+  lookup (word_id is_lower lower w) d = None -> w <> [] ->
+  child_stream o1 d <> child_stream o2 (append_word is_lower lower d w).
+Print Assumptions C07_merge_rebuild_partial.
+
+Theorem C07_merge_rebuild_same_id_refuted :
+  exists (d : dict) (w : word) (o1 o2 : list word -> list word),
+    (forall l, Permutation (o1 l) l) /\ (forall l, Permutation (o2 l) l) /\
+    words_of (append_word a_is_lower a_lower d w) <> words_of d /\
+    child_stream o1 d = child_stream o2 (append_word a_is_lower a_lower d w).
+Proof. exact merge_rebuild_refuted_same_id. Qed.
+Check C07_merge_rebuild_same_id_refuted :
+  exists (d : dict) (w : word) (o1 o2 : list word -> list word),
+    (forall l, Permutation (o1 l) l) /\ (forall l, Permutation (o2 l) l) /\
+    words_of (append_word a_is_lower a_lower d w) <> words_of d /\
+    child_stream o1 d = child_stream o2 (append_word a_is_lower a_lower d w).
+Print Assumptions C07_merge_rebuild_same_id_refuted.
+
 (* ---- non-vacuity: the hypotheses of the positive theorems hold on non-trivial inputs ---- *)
 Definition h_before : list op := [LintDoc u_doc [w_zorgle; w_alpha]; AddWord (SFile u_doc) w_beta].
 Definition h_after : list op :=
@@ -287,4 +317,9 @@ Example C07_atomic_example :
                      | None => false end)
           (crash_states None (s0, []) (atomic_save_effects UserP ws)) = true /\
   fs_read UserP (atomic_save_words UserP ws s0) = Some (Clean (serialize ws)).
+Proof. vm_compute. repeat split. Qed.
+Example C07_merge_rebuild_example :
+  lookup (word_id a_is_lower a_lower w_gamma) (append_word a_is_lower a_lower [] w_alpha) = None /\
+  child_stream id_order (append_word a_is_lower a_lower [] w_alpha) = w_alpha /\
+  child_stream (@rev word) (append_word a_is_lower a_lower (append_word a_is_lower a_lower [] w_alpha) w_gamma) = w_gamma ++ w_alpha.
 Proof. vm_compute. repeat split. Qed.
